@@ -24,11 +24,17 @@ LEVEL_TEXT = (
     "expression rate laws (arithmetic, power, conditional, chained / equality comparisons, math and numpy functions, "
     "constants, helper calls, constructs outside the subset) and 7 identifier variants (quick: the union of three "
     "sub-products) is exported with sbml.write and re-imported with sbml.read; names per kind, initial values, and at 4 "
-    "states the derivatives, fluxes and derived values must equal the original's, or the export must raise."
+    "states the derivatives, fluxes and derived values must equal the original's, or the export must raise. Every "
+    "model that comes back is written and read a second time (second generation) and must survive that unchanged. "
+    "Models that were themselves imported from the SBML documents of C17's generator (compartment size 2, amounts / "
+    "concentrations, substance-only species, rules, function definitions, rule-defined stoichiometry, initial-"
+    "assignment chains) are written and read as well. Sessions: two round trips in one process under related file "
+    "names (same path, same stem elsewhere, stems differing in punctuation or case)."
 )
 LEVEL_NOTE = "trusted: libsbml and the third-party pysbml parser; helper components added by the importer (compartment, <species>_amount) are ignored; only the original's names are compared"
 RULE = (
-    "case = (coefficient kind, derived shape, initial assignment, rate law, identifier variant), product enumerated "
+    "case = (coefficient kind, derived shape, initial assignment, rate law, identifier variant) | (imported document "
+    "description) | (ordered pair of models, file-name relation); products enumerated "
     "completely per tier. Non-trivial = anything but (unit coefficient, no derived, no assignment, plain mass action, "
     "plain names); distinct = distinct case tuples."
 )
@@ -222,6 +228,11 @@ def generate(tier):
         for files, (i, a), (j, b) in it.product(SESSION_FILES, enumerate(SESSION_CASES), enumerate(SESSION_CASES)):
             if i != j:
                 cases.append({"family": "session", "files": files, "first": a, "second": b, "names": "plain"})
+        from mc.props import c17
+
+        for doc in c17.generate(tier):
+            if doc["session"] == "single" and doc["names"] in ("plain", "keyword", "timelike", "modules"):
+                cases.append({"family": "imported", "doc": doc, "names": "plain"})
         # full structural product under the two identifier variants that need no escaping ...
         for coef, derived, ia, law, names in it.product(COEFS, DERIVED, IAS, range(nlaws), ("plain", "dunder")):
             add(coef, derived, ia, law, names)
@@ -299,7 +310,32 @@ def check(case):
 
             shutil.rmtree(d, ignore_errors=True)
         return outcome(True, "session-roundtrips-equal", nontrivial=True)
+    if case.get("family") == "imported":
+        return check_imported(case, home)
     return roundtrip(case, home / f"c08_{sha12(case)}.xml")
+
+
+def check_imported(case, home):
+    """Models that were themselves read from SBML (documents of C17's generator: compartment sizes, amounts,
+    rules, function definitions, rule-defined stoichiometry) are surrogate-free models too: write and read them."""
+    from mxlpy import sbml
+
+    from mc.props import c17
+
+    d = home / f"imp_{sha12(case)}"
+    d.mkdir(parents=True, exist_ok=True)
+    try:
+        c17.write_document(case["doc"], d / "doc.xml")
+        try:
+            m = sbml.read(d / "doc.xml")
+            m.get_args()
+        except Exception:  # noqa: BLE001 - reading third-party documents is C17's subject
+            return outcome(True, "document-not-imported", nontrivial=False)
+        return _roundtrip_model(m, d / "exported.xml", "may", True, f"model imported from the generated document {case['doc']}", generation=2)
+    finally:
+        import shutil
+
+        shutil.rmtree(d, ignore_errors=True)
 
 
 def roundtrip(case, file):
@@ -353,6 +389,7 @@ def _roundtrip_model(m1, file, cls, nontrivial, txt, generation):
                 return outcome(False, "different", symptom="different:initial-value", nontrivial=nontrivial,
                                detail=f"initial {v}: {ic2[v]} expected {val} | {txt}")
         v1 = m1.get_variable_names()
+        helper_bad = None
         for st in STATES:
             s1 = dict(zip(v1, list(st) + [1.5] * len(v1), strict=False))
             s2 = {v: s1.get(v, ic2[v]) for v in m2.get_variable_names()}
@@ -374,12 +411,20 @@ def _roundtrip_model(m1, file, cls, nontrivial, txt, generation):
             for n in list(m1.get_raw_derived()) + m1.get_reaction_names():
                 if not _close(float(a2[n]), float(a1[n])):
                     what = "flux" if n in m1.get_reaction_names() else "derived"
+                    if what == "derived" and n.endswith("_amount") and n[: -len("_amount")] in v1:
+                        # the name the importer itself gives to species amounts: remembered, everything else is
+                        # still compared so that this difference cannot hide another one
+                        helper_bad = helper_bad or outcome(False, "different", symptom="different:derived:amount-helper", nontrivial=nontrivial,
+                                                           detail=f"derived {n} at {s1}: {a2[n]} expected {a1[n]} | {txt}")
+                        continue
                     return outcome(False, "different", symptom=f"different:{what}", nontrivial=nontrivial,
                                    detail=f"{what} {n} at {s1}: {a2[n]} expected {a1[n]} | {txt}")
             for v in v1:
                 if not _close(float(r2[v]), float(r1[v])):
                     return outcome(False, "different", symptom="different:derivative", nontrivial=nontrivial,
                                    detail=f"d{v}/dt at {s1}: {r2[v]} expected {r1[v]} | {txt}")
+        if helper_bad is not None:
+            return helper_bad
         if generation == 1:
             again = _roundtrip_model(m2, file.with_name(file.stem + "_g2.xml"), "may", nontrivial, "[second generation: the re-imported model written and read again] " + txt, generation=2)
             if not again["ok"]:
@@ -396,10 +441,15 @@ def _roundtrip_model(m1, file, cls, nontrivial, txt, generation):
 
 
 def _escaped_names(case):
-    return case["names"] in ("digit", "dot", "dash", "space", "keyword")
+    return case.get("family") != "imported" and case["names"] in ("digit", "dot", "dash", "space", "keyword")
 
 
-PREDICATES = {"C08-escaped-names-not-restored": _escaped_names}
+def _amount_helper_clash(case):
+    # the imported model has derived quantities called <species>_amount exactly for concentration species
+    return case.get("family") == "imported" and not case["doc"]["hosu"] and case["doc"]["init"] == "conc"
+
+
+PREDICATES = {"C08-escaped-names-not-restored": _escaped_names, "C08-pysbml-amount-helper-name-clash": _amount_helper_clash}
 
 
 def run(ctx):
